@@ -36,6 +36,12 @@ RULE = ("gamma surfaces: n1 x n2 grids (4-15) of Fourier-sum or random energies 
         "coordinates; x grids of whole angstroms and disregistries rounded to whole angstroms as int ndarray / list of ints; "
         "for solve: the initial guess and x in all these forms, through the setters or solve's keywords); tau/beta as "
         "list/tuple/read-only/non-contiguous; after every call the caller's objects are compared with a snapshot.  "
+        "Units (about 60 % of the cases of every clause; exactly 1 in the rest): an overall length scale 10^k, k = -12..+4 "
+        "(1e-10: a cell in metres, atomman's SI working units) multiplies the cell edges / Cartesian shift vectors, plane "
+        "separations, positions, plotting axes, x grids, disregistries, Burgers vectors, half-widths and cutoff, and an "
+        "independent energy-per-area scale 10^j, j = -8..+8, the E_gsf values (K_tensor and tau x 10^(j-k), beta x 10^j, "
+        "alpha x 10^(j-2k)); each surface loaded into an object in a history carries its own scales; all references are "
+        "evaluated in the scaled units and every tolerance is relative (solve: k = -2..+2, see gens_c18).  "
         "Non-trivial: surfaces - oblique shift vectors or an array-valued query; PN - disregistry with non-zero edge and "
         "screw parts and at least one of tau/alpha/beta active; solve - the same with >= 7 points; halfwidth and arctan - "
         "every case (generic parameters)")
@@ -46,13 +52,19 @@ ASSUMPTIONS = ["numpy/scipy linear algebra and scipy.optimize are correct",
                "trusted (decided by C12); the [m,n,xi] re-expression done by SDVPN is recomputed independently",
                "stress_energy(fullstress=False): the + sign (the only one consistent with the documented 'constant offset "
                "from the full form') is taken, the docstring prints the formula with a - sign",
-               "beta is symmetric (the documented formula sums beta_lj over j, the code over l)"]
+               "beta is symmetric (the documented formula sums beta_lj over j, the code over l)",
+               "scaled units: a real Volterra solution is computed in the unscaled units (angstrom, eV/angstrom^3; the "
+               "absolute tolerances of the Stroh / isotropic solvers are C12's business) and handed to SDVPN in the scaled "
+               "units through a VolterraDislocation subclass with given m, n, K_tensor, burgers, transform",
+               "the tolerances that atomman documents as arguments or defaults in working units are given scaled "
+               "(cutofflongrange; its documented default of 1000 working units is taken literally)"]
 LEVEL_TEXT = ("Generated-input exploration of GammaSurface (interpolation at samples, periodicity, coordinate conversions for "
               "one and many points under every combination of the a1vect/a2vect/xvect keywords, JSON/XML model round trip) and "
               "SDVPN (every energy term against independent formula evaluation, total = sum, quadratic/shift properties of the "
               "elastic term, solve monotone with fixed ends and storing the minimiser's result, classical half-width recovered "
               "for a sinusoidal misfit law), with object histories and the documented input forms (lists, tuples, integer-typed, "
-              "read-only, non-contiguous arrays; caller's arrays unchanged).")
+              "read-only, non-contiguous arrays; caller's arrays unchanged), every clause also in other units: lengths scaled "
+              "by 1e-12..1e4 and energies per area by 1e-8..1e8 independently, judged with relative tolerances.")
 TECHNIQUE = ("input energies at samples, exact nearest-sample table, integer-period invariance, independent 2D basis "
              "solves, scalar-loop PN sums, summation-by-parts identity, analytic PN half-width")
 WALL = {'quick': 75, 'thorough': 600}
@@ -1693,6 +1705,13 @@ def oracle_pn_total(case):
 
 
 # ----------------------------------------------------------------------------- solve
+# Units: on the unchanged code everything judged here is independent of the units of length and energy (lengths x 1e-12
+# .. 1e4, energies per area x 1e-8 .. 1e8) except three absolute tolerances that no docstring states - open findings
+# K_ASSERT (pos_to_a12's in-plane assertion: legitimate positions refused in cells of numerically small size), K_XVREF
+# (out-of-plane xvect accepted there), K_ARCSTEP (incompatible xstep accepted for steps < 2e-8).  Not judged: the
+# SDVPN validations of its inputs (x evenly spaced, out-of-plane disregistry component, Burgers vector in the slip
+# plane use np.allclose / np.isclose with numpy's absolute 1e-8: invalid input is accepted at small length scales; valid
+# input is accepted at every scale generated here), the speed of solve in small cells (see gens_c18._lk_solve).
 # Input classes deliberately left out (not documented to work, so nothing is asserted for them): alternative a1vect /
 # a2vect in 4-index Miller-Bravais form (the conversion methods document "crystal vector" and take the dot product with
 # the 3 box vectors); integer-typed Cartesian pos arrays (in-plane positions with whole-number Cartesian components
@@ -2037,15 +2056,20 @@ CLAUSES = [
     # finding are excluded without labels (they still count in the denominator)
     Clause('interp', oracle_interp, G.interp_cases, quick=900, thorough=16000,
            min_share={'nt': 0.45, 'oblique': 0.35, 'dup_edge': 0.25, 'delta': 0.2, 'kind_random': 0.18, 'list': 0.2,
-                      'history': 0.2, 'history_reload_set': 0.1, 'history_reload_model': 0.1, 'history_back': 0.08},
+                      'history': 0.2, 'history_reload_set': 0.1, 'history_reload_model': 0.1, 'history_back': 0.08,
+                      'lscale_1': 0.2, 'lscale_small': 0.2, 'lscale<=1e-5': 0.14, 'lscale_big': 0.05,
+                      'escale_1': 0.2, 'escale_small': 0.14, 'escale_big': 0.11, 'scaled_both': 0.15},
            desc='E_gsf/delta reproduce every input value at its sampled (a1,a2), smooth and nearest modes, arrays/lists/floats'),
     Clause('periodic', oracle_periodic, _periodic_cases, quick=900, thorough=16000,
-           min_share={'nt': 0.35, 'oblique': 0.28, 'shifted': 0.35, 'scalar': 0.18, 'history_mode_order': 0.2, 'history_mode_back': 0.1},
+           min_share={'nt': 0.35, 'oblique': 0.28, 'shifted': 0.35, 'scalar': 0.18, 'history_mode_order': 0.2, 'history_mode_back': 0.1,
+                      'lscale_1': 0.2, 'lscale_small': 0.17, 'lscale_big': 0.05, 'escale_1': 0.22, 'escale_small': 0.1, 'escale_big': 0.11},
            desc='E(a1+k1, a2+k2) = E(a1, a2) for integer periods; nearest mode equals the exact nearest-sample table'),
     Clause('coords', keyed_inplane_assert(oracle_coords), G.coords_cases, quick=1200, thorough=20000,
            min_share={'nt': 0.45, 'oblique': 0.4, 'npts3': 0.15, 'xvect': 0.18, 'scalar': 0.18,
                       'history': 0.25, 'history_reload_set': 0.08, 'history_reload_model': 0.08, 'history_swap': 0.08, 'history_other_mode': 0.04,
-                      'form_ro': 0.06, 'form_strided': 0.05, 'form_tuple': 0.04, 'form_npscalar': 0.06, 'form_int': 0.05, 'int_typed': 0.04},
+                      'form_ro': 0.06, 'form_strided': 0.05, 'form_tuple': 0.04, 'form_npscalar': 0.04, 'form_int': 0.05, 'int_typed': 0.04,
+                      'lscale_1': 0.22, 'lscale_small': 0.15, 'lscale<=1e-5': 0.1, 'lscale_big': 0.06,
+                      'escale_small': 0.1, 'escale_big': 0.09},
            desc='a12_to_pos, pos_to_xy, xy_to_pos, a12_to_xy, pos_to_a12(single) against independent basis algebra; mutual inverses'),
     Clause('coords_multi', keyed_inplane_assert(oracle_coords_multi), G.coords_cases, quick=1200, thorough=20000,
            min_share=_BlockedGuard({'nt': 0.3, 'oblique': 0.25, 'npts3': 0.1, 'npts7': 0.06, 'altvect': 0.18, 'smooth': 0.15, 'nearest': 0.2,
@@ -2054,21 +2078,26 @@ CLAUSES = [
                                     'combo_both_xdefault': 0.18, 'combo_both_xexplicit': 0.18, 'combo_a1only_xdefault': 0.18,
                                     'combo_a1only_xexplicit': 0.18, 'combo_a2only_xdefault': 0.18, 'combo_a2only_xexplicit': 0.18,
                                     'altvect_int': 0.04, 'form_ro': 0.05, 'form_strided': 0.045, 'form_tuple': 0.045,
-                                    'form_npscalar': 0.06, 'form_int': 0.03, 'int_typed': 0.03},
+                                    'form_npscalar': 0.04, 'form_int': 0.03, 'int_typed': 0.03,
+                                    'lscale_1': 0.24, 'lscale_small': 0.14, 'lscale<=1e-5': 0.09, 'lscale_big': 0.055,
+                                    'escale_small': 0.11, 'escale_big': 0.11},
                                    # while K_ALT is open nearly every case with alternative vectors is excluded
                                    drop_alt=('altvect', 'altvect_int', 'combo_both_xdefault', 'combo_both_xexplicit', 'combo_a1only_xdefault',
                                              'combo_a1only_xexplicit', 'combo_a2only_xdefault', 'combo_a2only_xexplicit')),
            desc='pos_to_a12 / xy_to_a12 on 1,2,3,7 positions; E_gsf and delta given a1/a2, pos, x/y agree; every combination of the '
                 'keywords a1vect / a2vect / xvect of all conversion methods and of E_gsf / delta; input forms; caller\'s arrays unchanged'),
     Clause('model', oracle_model, G.model_cases, quick=400, thorough=6000,
-           min_share={'nt': 0.3, 'json': 0.3, 'history_load_into_existing': 0.2},
+           min_share={'nt': 0.3, 'json': 0.3, 'history_load_into_existing': 0.2,
+                      'lscale_1': 0.2, 'lscale_small': 0.19, 'lscale_big': 0.08, 'escale_1': 0.22, 'escale_small': 0.1, 'escale_big': 0.09},
            desc='model() -> JSON/XML text, DataModelDict or file -> GammaSurface: same data, vectors, box, answers'),
     Clause('pn_terms', oracle_pn_terms, G.pn_hist_cases, quick=1500, thorough=25000,
            min_share=_BlockedGuard({'nt': 0.16, 'mixed': 0.23, 'K_offdiag': 0.13, 'N>120': 0.1, 'cdiffelastic': 0.15, 'tau': 0.15,
                                     'history': 0.2, 'history_same_len_new_spacing': 0.12, 'history_setter_between': 0.15,
                                     'history_settings_changed': 0.12, 'history_new_len': 0.06, 'history_steps>=2': 0.15,
                                     'forms': 0.35, 'history_forms': 0.2, 'int_typed': 0.2, 'xform_int': 0.1, 'dform_int': 0.07,
-                                    'dform_ro': 0.03, 'xform_ro': 0.025, 'dform_strided': 0.035, 'xform_tuple': 0.03, 'list_args': 0.035},
+                                    'dform_ro': 0.03, 'xform_ro': 0.025, 'dform_strided': 0.035, 'xform_tuple': 0.03, 'list_args': 0.035,
+                                    'lscale_1': 0.2, 'lscale_small': 0.14, 'lscale<=1e-5': 0.1, 'lscale_big': 0.11,
+                                    'escale_1': 0.2, 'escale_small': 0.11, 'escale_big': 0.14, 'scaled_both': 0.15},
                                    drop_listarg=('list_args',)),
            desc='disldensity, elastic, long-range, stress (both forms), surface, nonlocal vs independent formula evaluation; quadratic form, rigid shift; '
                 'repeated evaluations on one object (arguments / setters / changed settings)'),
@@ -2077,19 +2106,23 @@ CLAUSES = [
                                     'history': 0.17, 'history_same_len_new_spacing': 0.09, 'history_setter_between': 0.12,
                                     'history_settings_changed': 0.06, 'history_new_len': 0.035,
                                     'forms': 0.35, 'history_forms': 0.2, 'int_typed': 0.2, 'xform_int': 0.1, 'dform_int': 0.07,
-                                    'dform_ro': 0.03, 'xform_ro': 0.03, 'list_args': 0.035},
+                                    'dform_ro': 0.03, 'xform_ro': 0.03, 'list_args': 0.035,
+                                    'lscale_1': 0.2, 'lscale_small': 0.14, 'lscale<=1e-5': 0.1, 'lscale_big': 0.11,
+                                    'escale_1': 0.2, 'escale_small': 0.12, 'escale_big': 0.12, 'scaled_both': 0.15},
                                    drop_listarg=('list_args',)),
            desc='misfit energy vs dx*sum gamma(delta) by independent conversion; total = sum of the six terms = independent evaluation; '
                 'repeated evaluations on one object'),
     Clause('solve', keyed_inplane_assert(oracle_solve), G.solve_cases, quick=64, thorough=640, max_share={'timeout_skipped': 0.2},
            min_share=_BlockedGuard({'moved': 0.5, 'lowered': 0.4, 'history': 0.28, 'history_same_len_new_spacing': 0.05,
                                     'history_eval_between_store_and_solve': 0.07,
-                                    'forms': 0.4, 'int_typed': 0.2, 'dform_int': 0.08, 'dform_ro': 0.03}),
+                                    'forms': 0.4, 'int_typed': 0.2, 'dform_int': 0.08, 'dform_ro': 0.03,
+                                    'lscale_1': 0.2, 'lscale_small': 0.05, 'lscale_big': 0.08, 'escale_small': 0.08, 'escale_big': 0.08}),
            desc='solve never raises the (independently evaluated) total energy, end rows/x/out-of-plane component unchanged; initial guess '
                 'and x as float / integer-typed / read-only / non-contiguous arrays, lists, tuples: caller\'s arrays unchanged, stored '
                 'solution = the minimiser\'s result'),
     Clause('halfwidth', oracle_halfwidth, G.halfwidth_cases, quick=32, thorough=320,
+           min_share=_BlockedGuard({'scaled': 0.3, 'lscale_small': 0.12, 'lscale_1': 0.2}),
            desc='sinusoidal misfit law: arctangent profile of lowest total energy has the classical half-width K b^2/(4 pi^2 gamma0)'),
-    Clause('arctan', oracle_arctan, G.arctan_cases, quick=1500, thorough=25000, min_share={'nt': 0.5, 'normalize': 0.2, 'derivative': 0.15},
+    Clause('arctan', oracle_arctan, G.arctan_cases, quick=1500, thorough=25000, min_share={'nt': 0.5, 'normalize': 0.2, 'derivative': 0.15, 'lscale_1': 0.2, 'lscale_small': 0.2, 'lscale<=1e-5': 0.13, 'lscale_big': 0.06},
            desc='pn_arctan_disregistry / pn_arctan_disldensity against the analytic forms, normalisation, x generation'),
 ]
